@@ -192,6 +192,25 @@ func (fr *frame) binop(op token.Token, t types.Type, x, y Value, pos token.Pos) 
 				return xf >= yf
 			}
 		}
+		// comparisons of exactly converted integers are integer comparisons
+		if ia, ok := fpIntOrigin(x); ok {
+			if ib, ok := fpIntOrigin(y); ok {
+				switch op {
+				case token.EQL:
+					return lowerBool(tEq(ia, ib))
+				case token.NEQ:
+					return lowerBool(tNot(tEq(ia, ib)))
+				case token.LSS:
+					return lowerBool(tLt(ia, ib))
+				case token.LEQ:
+					return lowerBool(tLe(ia, ib))
+				case token.GTR:
+					return lowerBool(tGt(ia, ib))
+				case token.GEQ:
+					return lowerBool(tGe(ia, ib))
+				}
+			}
+		}
 		a, b := liftFloat(x), liftFloat(y)
 		rm := &Term{op: "const", sort: SFP, raw: "RNE", size: 1}
 		switch op {
@@ -270,6 +289,26 @@ func (fr *frame) binop(op token.Token, t types.Type, x, y Value, pos token.Pos) 
 		}
 	}
 	panic(engineError{fmt.Sprintf("binop %v on %v (%T, %T)", op, t, x, y)})
+}
+
+// fpIntOrigin recognises a float that is the exact conversion of an integer
+// (|i| <= 2^53): such conversions are injective and monotone.
+func fpIntOrigin(v Value) (*Term, bool) {
+	lim := pow2(53)
+	switch v := v.(type) {
+	case float64:
+		if v == math.Trunc(v) && math.Abs(v) <= 9007199254740992 {
+			return intConst(int64(v)), true
+		}
+	case *Term:
+		if v.op == "(_ to_fp 11 53)" && len(v.args) == 2 && v.args[1].op == "to_real" {
+			i := v.args[1].args[0]
+			if i.lo != nil && i.hi != nil && new(big.Int).Abs(i.lo).Cmp(lim) <= 0 && new(big.Int).Abs(i.hi).Cmp(lim) <= 0 {
+				return i, true
+			}
+		}
+	}
+	return nil, false
 }
 
 func numericOperand(t types.Type, x, y Value) (bool, bool) {
